@@ -60,24 +60,29 @@ void h_parse_title(void)
 #define NSEC 2
 #endif
 static int k_secflags, k_ctxflags;
-static cfg_t t_root, t_sec[NSEC ? NSEC : 1];
-static cfg_opt_t t_rootopts[3], t_secopts[NSEC ? NSEC : 1][2];
-static cfg_value_t t_val[NSEC ? NSEC : 1], *t_vals[NSEC ? NSEC : 1];
-static char t_title[NSEC ? NSEC : 1][2];
+/* every instance is a separate object (arrays of structs addressed through a symbolic index give spurious pointer
+ * failures in this CBMC) */
+static cfg_t t_root, t_sec0, t_sec1;
+static cfg_t *const t_secp[2] = { &t_sec0, &t_sec1 };
+#define t_sec(i) (*t_secp[i])
+static cfg_opt_t t_rootopts[3], t_secopts0[2], t_secopts1[2];
+static cfg_value_t t_val0, t_val1, *t_vals[2];
+static char t_title[2][2];
+static void mk_one(cfg_t *sec, cfg_opt_t *opts, cfg_value_t *val, unsigned i)
+{
+	opts[0].name = "b"; opts[0].type = CFGT_INT; opts[1].name = NULL; opts[1].type = CFGT_NONE;
+	sec->name = "s"; sec->flags = k_ctxflags; sec->errfunc = cfgv_errfunc; sec->opts = opts;
+	if (k_secflags & CFGF_TITLE) { t_title[i][0] = nondet_char(); __CPROVER_assume(t_title[i][0] != 0); t_title[i][1] = 0; sec->title = t_title[i]; }
+	val->section = sec;
+}
 static void mk_tree(void)
 {
-	memset(&t_root, 0, sizeof t_root); memset(t_rootopts, 0, sizeof t_rootopts);
 	t_root.name = "root"; t_root.flags = k_ctxflags; t_root.errfunc = cfgv_errfunc; t_root.opts = t_rootopts;
 	t_rootopts[0].name = "a"; t_rootopts[0].type = CFGT_INT;
 	t_rootopts[1].name = "s"; t_rootopts[1].type = CFGT_SEC; t_rootopts[1].flags = k_secflags;
 	t_rootopts[1].nvalues = NSEC; t_rootopts[1].values = NSEC ? t_vals : NULL;
-	for (unsigned i = 0; i < NSEC; i++) {
-		memset(&t_sec[i], 0, sizeof t_sec[i]); memset(t_secopts[i], 0, sizeof t_secopts[i]);
-		t_sec[i].name = "s"; t_sec[i].flags = k_ctxflags; t_sec[i].errfunc = cfgv_errfunc; t_sec[i].opts = t_secopts[i];
-		t_secopts[i][0].name = "b"; t_secopts[i][0].type = CFGT_INT;
-		if (k_secflags & CFGF_TITLE) { t_title[i][0] = nondet_char(); __CPROVER_assume(t_title[i][0] != 0); t_title[i][1] = 0; t_sec[i].title = t_title[i]; }
-		t_val[i].section = &t_sec[i]; t_vals[i] = &t_val[i];
-	}
+	if (NSEC >= 1) { mk_one(&t_sec0, t_secopts0, &t_val0, 0); t_vals[0] = &t_val0; }
+	if (NSEC >= 2) { mk_one(&t_sec1, t_secopts1, &t_val1, 1); t_vals[1] = &t_val1; }
 	g_diag = 0;
 }
 static _Bool name_eq(const char *p, unsigned n, char name, _Bool nocase)
@@ -128,7 +133,7 @@ static int spec_resolve(const char *path, _Bool want_section, cfg_opt_t **ropt, 
 			n = used;
 		}
 		if (idx < 0 || idx >= NSEC) { if (want_section && p[n] == 0 && opt) { *ropt = opt; *ridx = idx < 0 ? -1 : idx; } return RS_NONE; }
-		cur = &t_sec[idx]; depth++;
+		cur = t_secp[idx]; depth++;
 		p += n;
 		if (want_section && *p == 0) { *ropt = opt; *ridx = idx; return RS_OK; }
 		if (*p != '|') return RS_SILENT;
@@ -139,11 +144,19 @@ static int spec_resolve(const char *path, _Bool want_section, cfg_opt_t **ropt, 
 	}
 }
 
+#ifdef TREE_COMBO      /* one CBMC process per flag combination */
+#define FOR_TREE_FLAGS(stmt) do { \
+	if (TREE_COMBO == 0) { k_secflags = 0; k_ctxflags = 0; stmt; } else if (TREE_COMBO == 1) { k_secflags = CFGF_MULTI; k_ctxflags = 0; stmt; } \
+	else if (TREE_COMBO == 2) { k_secflags = CFGF_MULTI | CFGF_TITLE; k_ctxflags = CFGF_IGNORE_UNKNOWN; stmt; } \
+	else if (TREE_COMBO == 3) { k_secflags = CFGF_MULTI | CFGF_TITLE | CFGF_NOCASE; k_ctxflags = CFGF_NOCASE; stmt; } \
+	else { k_secflags = CFGF_TITLE; k_ctxflags = CFGF_NOCASE; stmt; } } while (0)
+#else
 #define FOR_TREE_FLAGS(stmt) do { unsigned g_ = nondet_uint(); \
 	if (g_ == 0) { k_secflags = 0; k_ctxflags = 0; stmt; } else if (g_ == 1) { k_secflags = CFGF_MULTI; k_ctxflags = 0; stmt; } \
 	else if (g_ == 2) { k_secflags = CFGF_MULTI | CFGF_TITLE; k_ctxflags = CFGF_IGNORE_UNKNOWN; stmt; } \
 	else if (g_ == 3) { k_secflags = CFGF_MULTI | CFGF_TITLE | CFGF_NOCASE; k_ctxflags = CFGF_NOCASE; stmt; } \
 	else { k_secflags = CFGF_TITLE; k_ctxflags = CFGF_NOCASE; stmt; } } while (0)
+#endif
 
 static void path_input(void)
 {
@@ -177,8 +190,16 @@ static void b_getsec(void)
 	mk_tree(); path_input();
 	verdict = spec_resolve(in_path, 1, &want, &wi);
 	got = cfg_getsec(&t_root, in_path);
-	if (verdict != RS_SILENT)
-		CHECK("C11", got == (verdict == RS_OK ? &t_sec[wi] : NULL), "a section path addresses exactly the instance reached by walking the tree one level at a time (unqualified = first instance)");
+	if (verdict != RS_SILENT) {
+		/* the tail after the last separator: empty (stray separator at the end) or starting with '=' (stray qualifier sign) */
+		int last = -1; _Bool stray_tail;
+		for (int i = 0; i < PATHN; i++) if (in_path[i] == '|') last = i;
+		stray_tail = last >= 1 && (in_path[last + 1] == 0 || in_path[last + 1] == '=');
+		if (stray_tail && verdict == RS_NONE)
+			KFCHECK("C11-section-path-stray-tail-resolves", "C11", got == NULL, "a section path with a stray separator or '=' after its last step does not resolve");
+		else
+			CHECK("C11", got == (verdict == RS_OK ? t_secp[wi] : NULL), "a section path addresses exactly the instance reached by walking the tree one level at a time (unqualified = first instance)");
+	}
 }
 void h_getsec_path(void)
 {
@@ -189,18 +210,38 @@ void h_getsec_path(void)
 /* ------------------------------------------------------------------------------------------------ cfg_getopt_array
  * (schema-level resolver used when callbacks are registered by path, C14): names joined by '|'; a section step goes
  * into the section's only instance if it is a single section that has one, else into the DECLARED sub-options - so that
- * a callback registered for a multi section reaches the template every later instance is copied from */
-static cfg_opt_t ga_root[3], ga_decl[2], ga_inst[2]; static cfg_t ga_sec; static cfg_value_t ga_val, *ga_vals[1];
-static void b_getopt_array(_Bool multi, _Bool has_instance)
+ * a callback registered for a multi section reaches the template every later instance is copied from.
+ * The function is recursive (a section name is looked up by a nested call with a '|'-free name); the unit runs the
+ * mechanically extracted copy cfg_getopt_array_top whose nested call is the contract carrier below:
+ *   contract (name without '|'): the first option of opts whose name equals name (case-insensitively iff NOCASE), or NULL
+ * and the same unit enforces exactly this contract on cfg_getopt_array_top for '|'-free names (h_getopt_array_leaf). */
+static int g_ga_rec_calls; static _Bool g_ga_rec_forbidden;
+static cfg_opt_t *cfgv_rec_cfg_getopt_array(cfg_opt_t *opts, int cfg_flags, const char *name)
 {
-	cfg_opt_t *got, *want = NULL; _Bool nocase = nondet_bool();
-	memset(ga_root, 0, sizeof ga_root); memset(ga_decl, 0, sizeof ga_decl); memset(ga_inst, 0, sizeof ga_inst); memset(&ga_sec, 0, sizeof ga_sec);
+	g_ga_rec_calls++;
+	CHECK("C11", !g_ga_rec_forbidden, "a '|'-free name is resolved without a nested lookup");
+	for (unsigned k = 0; name[k]; k++) CHECK("C11", name[k] != '|', "the nested lookup is asked for a single name");
+	if (!opts || !name) return NULL;
+	for (unsigned i = 0; opts[i].name; i++)
+		if ((cfg_flags & CFGF_NOCASE) ? strcasecmp(opts[i].name, name) == 0 : strcmp(opts[i].name, name) == 0) return &opts[i];
+	return NULL;
+}
+#include "extracted_cfg_getopt_array.inc"
+static cfg_opt_t ga_root[3], ga_decl[2], ga_inst[2]; static cfg_t ga_sec; static cfg_value_t ga_val, *ga_vals[1];
+static void ga_tree(_Bool multi, _Bool has_instance)
+{
 	ga_root[0].name = "a"; ga_root[0].type = CFGT_INT;
 	ga_root[1].name = "s"; ga_root[1].type = CFGT_SEC; ga_root[1].flags = multi ? CFGF_MULTI : 0; ga_root[1].subopts = ga_decl;
 	ga_decl[0].name = "b"; ga_decl[0].type = CFGT_INT; ga_inst[0].name = "b"; ga_inst[0].type = CFGT_INT;
 	ga_sec.opts = ga_inst; ga_val.section = &ga_sec; ga_vals[0] = &ga_val;
 	if (has_instance) { ga_root[1].nvalues = 1; ga_root[1].values = ga_vals; }
+}
+static void b_getopt_array(_Bool multi, _Bool has_instance)
+{
+	cfg_opt_t *got, *want = NULL; _Bool nocase = nondet_bool();
+	ga_tree(multi, has_instance);
 	path_input();
+	g_ga_rec_calls = 0; g_ga_rec_forbidden = 0;
 	/* reference */
 	{
 		const char *p = in_path; unsigned n = 0;
@@ -212,7 +253,7 @@ static void b_getopt_array(_Bool multi, _Bool has_instance)
 			if (q[m] == 0 && name_eq(q, m, 'b', nocase)) want = (!multi && has_instance) ? &ga_inst[0] : &ga_decl[0];
 		}
 	}
-	got = cfg_getopt_array(ga_root, nocase ? CFGF_NOCASE : 0, in_path);
+	got = cfg_getopt_array_top(ga_root, nocase ? CFGF_NOCASE : 0, in_path);
 	{
 		/* not judged: duplicated separators, a leading separator */
 		_Bool silent = 0;
@@ -223,7 +264,25 @@ static void b_getopt_array(_Bool multi, _Bool has_instance)
 }
 void h_getopt_array(void)
 {
+#ifdef GA_CASE
+	b_getopt_array((GA_CASE & 2) != 0, (GA_CASE & 1) != 0);
+#else
 	unsigned k = nondet_uint();
 	if (k == 0) b_getopt_array(0, 0); else if (k == 1) b_getopt_array(0, 1); else if (k == 2) b_getopt_array(1, 0); else b_getopt_array(1, 1);
+#endif
 	CANARY("getopt_array");
+}
+/* the nested call's contract, enforced on the function itself: a '|'-free name */
+void h_getopt_array_leaf(void)
+{
+	cfg_opt_t *got, *want = NULL; _Bool nocase = nondet_bool();
+	ga_tree(0, 0);
+	path_input();
+	for (unsigned i = 0; i < PATHN; i++) __CPROVER_assume(in_path[i] != '|');
+	g_ga_rec_forbidden = 1;
+	if (name_eq(in_path, (unsigned)strlen(in_path), 'a', nocase)) want = &ga_root[0]; else if (name_eq(in_path, (unsigned)strlen(in_path), 's', nocase)) want = &ga_root[1];
+	got = cfg_getopt_array_top(ga_root, nocase ? CFGF_NOCASE : 0, in_path);
+	CHECK("C14,C11", got == want, "a single name resolves to the first declared option carrying it (case-insensitively iff the context says so)");
+	CHECK("C11", cfg_getopt_array_top(NULL, 0, in_path) == NULL && cfg_getopt_array_top(ga_root, 0, NULL) == NULL, "NULL arguments: not found");
+	CANARY("getopt_array_leaf");
 }
